@@ -81,6 +81,7 @@ def reused_object_world(ctx, name, depth, nodedup_depth=2, nmax=4):
             if os.path.exists(fn):
                 os.unlink(fn)
         ms = [dict(exists=False, delim=None, hdr=None, n=0, empty=False) for _ in (0, 1)]
+        nfd0 = len(os.listdir("/proc/self/fd"))
         sf = sfile.SFile()
         cur = None          # dict(f=, mode=, first=) while a file is open on the object
         msg = None
@@ -171,6 +172,8 @@ def reused_object_world(ctx, name, depth, nodedup_depth=2, nmax=4):
             sf.close()
         except Exception:
             pass
+        if msg is None and len(os.listdir("/proc/self/fd")) != nfd0:
+            msg = "after the history %r and closing the object %d file descriptor(s) are still open" % (hist, len(os.listdir("/proc/self/fd")) - nfd0)
         if msg is None:
             for f in (0, 1):
                 if ms[f]["exists"] and not ms[f]["empty"]:
@@ -259,6 +262,7 @@ def reused_recfile_world(ctx, name, depth, nodedup_depth=2, nmax=4):
         f0 = os.path.join(tmp, "rfreuse_first.rec")
         first = np.zeros(5, dtype=[("zz", "<u2"), ("s", "S7")])
         recfile.write(f0, first)
+        nfd0 = len(os.listdir("/proc/self/fd"))
         R = recfile.Recfile(f0, mode="r", dtype=first.dtype)
         R.read()
         R.close()
@@ -322,6 +326,8 @@ def reused_recfile_world(ctx, name, depth, nodedup_depth=2, nmax=4):
             R.close()
         except Exception:
             pass
+        if msg is None and len(os.listdir("/proc/self/fd")) != nfd0:
+            msg = "after the history %r and closing the object %d file descriptor(s) are still open" % (hist, len(os.listdir("/proc/self/fd")) - nfd0)
         if msg is None:
             for f in (0, 1):
                 m = ms[f]
